@@ -18,7 +18,7 @@ from collections.abc import Callable, Iterable
 
 from uberjob._plan import Plan
 from uberjob._transformations import get_mutable_plan
-from uberjob._util.networkx_util import all_ancestors, is_source_node
+from uberjob._util.networkx_util import all_ancestors, assert_acyclic, is_source_node
 from uberjob.graph import Dependency, Literal, Node
 
 
@@ -36,6 +36,10 @@ def prune_plan(
     required_nodes = all_ancestors(plan.graph, required_nodes)
     prune_nodes = set(plan.graph.nodes()) - required_nodes
     plan.graph.remove_nodes_from(prune_nodes)
+
+    # Pruning trivial literals below would silently dissolve a dependency cycle
+    # that consists of literals only; report it like any other cycle.
+    assert_acyclic(plan.graph)
 
     for literal in [
         u for u in plan.graph.nodes() if type(u) is Literal and u != output_node
